@@ -108,6 +108,27 @@ class Extents:
                 return h
         return None
 
+    def shared_helper_for_call(self, f: FuncInfo, call: ast.Call) -> FuncInfo | None:
+        """a plain private function / method of the same module (class) that is only ever CALLED (never used as a value), whoever
+        calls it: executing its body in place is what the interpreter does"""
+        if self._uses is None:
+            self._index()
+        nm = call.func.attr if isinstance(call.func, ast.Attribute) else call.func.id if isinstance(call.func, ast.Name) else None
+        cands = self._by_name.get(nm or '', [])
+        if len(cands) != 1 or nm in self._escapes:
+            return None
+        h = cands[0]
+        if h is f or not self._is_plain(h) or h.parent is not None:
+            return None
+        if isinstance(call.func, ast.Attribute):
+            if not (isinstance(call.func.value, ast.Name) and call.func.value.id in ('self', 'cls', 'ctx')):
+                return None
+            if h.cls is None or f.cls is None or h.module is not f.module:
+                return None
+        elif h.cls is not None or h.module is not f.module:
+            return None
+        return h
+
     def walk(self, fn: FuncInfo):
         """(function of the extent, node) for every node, nested definitions excluded."""
         for f in self.of(fn):
